@@ -417,6 +417,13 @@ def run(ctx):
     C.require_locals(ctx, ctx.func('ArchSemantics._handle_instruction_found'), ['instruction_data', 'instruction_form'])
     _r1(ctx)
     _r1b(ctx)
+    # the composed path (register form + load / store micro-ops): the pressure vector is the sum of the averaged pressures
+    # of exactly the micro-ops that are concatenated into port_uops, each part scaled by its own multiplier only (C08-R1)
+    from . import c08
+    ctx.rule("R1c", "composed instruction forms: pressure = reg + m_load*load + m_store*store over the micro-ops kept in port_uops (C08-R1)")
+    C.embed(ctx, "C08", c08.composition_rule, "R1c", "composed form (C08-R1)",
+            "the per-port pressure of a composed instruction no longer is the sum over its micro-ops (each scaled by its own multiplier)",
+            ctx.func("ArchSemantics.assign_tp_lt").where())
     P = balancer_parts(ctx)
     _r2(ctx, P)
     _r3(ctx, P)
